@@ -144,9 +144,11 @@ struct Inner {
     tasks: Vec<Task>,
     conns: HashMap<u64, Conn>,
     generation: usize,
-    /// substream id -> (peer, connection generation, answered)
-    requested: HashMap<usize, (u64, usize, bool)>,
-    pipes: Vec<PipeCtl>,
+    /// outbound substreams requested from the transport, in request order:
+    /// (substream id, peer, connection generation, answered)
+    requested: Vec<(usize, u64, usize, bool)>,
+    /// (control end, peer, inbound?)
+    pipes: Vec<(PipeCtl, u64, bool)>,
     proto_flag: Arc<Flag>,
     handle_flag: Arc<Flag>,
     max_size: usize,
@@ -228,7 +230,7 @@ impl Inner {
             tasks: Vec::new(),
             conns: HashMap::new(),
             generation: 0,
-            requested: HashMap::new(),
+            requested: Vec::new(),
             pipes: Vec::new(),
             proto_flag: Flag::new(true),
             handle_flag: Flag::new(true),
@@ -273,7 +275,7 @@ impl Inner {
                     ProtocolCommand::OpenSubstream { substream_id, .. } => {
                         let s = sid(&substream_id);
                         let n: usize = s[1..].parse().unwrap();
-                        self.requested.insert(n, (p, conn.generation, false));
+                        self.requested.push((n, p, conn.generation, false));
                         calls.push(format!("open({p},{s})"));
                     }
                     ProtocolCommand::ForceClose => calls.push(format!("fc({p})")),
@@ -287,9 +289,9 @@ impl Inner {
         self.tx.try_send(ev).expect("transport event channel");
     }
 
-    fn new_substream(&mut self, p: u64, id: usize) -> (Substream, usize) {
+    fn new_substream(&mut self, p: u64, id: usize, inbound: bool) -> (Substream, usize) {
         let (end, ctl) = pipe(1 << 20);
-        self.pipes.push(ctl);
+        self.pipes.push((ctl, p, inbound));
         let k = self.pipes.len() - 1;
         (
             Substream::new_verif(
@@ -502,27 +504,37 @@ impl VerifBox for NotifBox {
                 let calls = inner.settle();
                 with_calls("ok", calls)
             }
-            ["subout", s] | ["subfail", s] => {
-                let Some(s) = num(s) else { return "bad-op".into() };
-                let Some((p, generation, answered)) = inner.requested.get(&s).copied() else {
+            [op @ ("subout" | "subfail"), p, rest @ ..] => {
+                // answer the i-th oldest unanswered request of peer p on its current connection
+                let Some(p) = num(p) else { return "bad-op".into() };
+                let p = p as u64;
+                let i = rest.first().and_then(|x| num(x)).unwrap_or(0);
+                let Some(generation) = inner.conns.get(&p).map(|c| c.generation) else {
                     return "ignored".into();
                 };
-                let live = inner.conns.get(&p).map(|c| c.generation) == Some(generation);
-                if answered || !live {
+                let Some(idx) = inner
+                    .requested
+                    .iter()
+                    .enumerate()
+                    .filter(|(_, r)| r.1 == p && r.2 == generation && !r.3)
+                    .map(|(j, _)| j)
+                    .nth(i)
+                else {
                     return "ignored".into();
-                }
-                inner.requested.insert(s, (p, generation, true));
-                if t[0] == "subfail" {
+                };
+                inner.requested[idx].3 = true;
+                let s = inner.requested[idx].0;
+                if *op == "subfail" {
                     inner.inject(InnerTransportEvent::SubstreamOpenFailure {
                         substream: SubstreamId::from(s),
                         error: SubstreamError::ConnectionClosed,
                     });
                     let calls = inner.settle();
-                    return with_calls("ok", calls);
+                    return with_calls(&format!("ok s{s}"), calls);
                 }
                 let conn = inner.conns.get(&p).unwrap();
                 let (id, permit) = (conn.id, Permit::new(conn._tx.clone()));
-                let (substream, k) = inner.new_substream(p, s);
+                let (substream, k) = inner.new_substream(p, s, false);
                 inner.inject(InnerTransportEvent::SubstreamOpened {
                     peer: peer(p),
                     protocol: ProtocolName::from(PROTOCOL),
@@ -533,7 +545,7 @@ impl VerifBox for NotifBox {
                     opening_permit: permit,
                 });
                 let calls = inner.settle();
-                with_calls(&format!("ok pipe={k}"), calls)
+                with_calls(&format!("ok s{s} pipe={k}"), calls)
             }
             ["subin", p] => {
                 let Some(p) = num(p) else { return "bad-op".into() };
@@ -542,7 +554,7 @@ impl VerifBox for NotifBox {
                     return "ignored".into();
                 };
                 let (id, permit) = (conn.id, Permit::new(conn._tx.clone()));
-                let (substream, k) = inner.new_substream(p, 1_000_000 + inner.pipes.len());
+                let (substream, k) = inner.new_substream(p, 1_000_000 + inner.pipes.len(), true);
                 inner.inject(InnerTransportEvent::SubstreamOpened {
                     peer: peer(p),
                     protocol: ProtocolName::from(PROTOCOL),
@@ -555,12 +567,31 @@ impl VerifBox for NotifBox {
                 let calls = inner.settle();
                 with_calls(&format!("ok pipe={k}"), calls)
             }
-            [op @ ("hs" | "rclose" | "rreset" | "rread" | "stall" | "release" | "rsend"), k, rest @ ..] =>
+            [op @ ("hs" | "rclose" | "rreset" | "rread" | "stall" | "release" | "rsend"), p, role, rest @ ..] =>
             {
-                let Some(k) = num(k).filter(|k| *k < inner.pipes.len()) else {
+                // act on the newest (age 0), second newest (age 1)... inbound/outbound pipe of peer p
+                let Some(p) = num(p) else { return "bad-op".into() };
+                let inbound = match *role {
+                    "in" => true,
+                    "out" => false,
+                    _ => return "bad-op".into(),
+                };
+                let (age, rest) = match rest.first().and_then(|x| x.strip_prefix("age=")) {
+                    Some(a) => (a.parse::<usize>().unwrap_or(0), &rest[1..]),
+                    None => (0, rest),
+                };
+                let Some(k) = inner
+                    .pipes
+                    .iter()
+                    .enumerate()
+                    .rev()
+                    .filter(|(_, x)| x.1 == p as u64 && x.2 == inbound)
+                    .map(|(k, _)| k)
+                    .nth(age)
+                else {
                     return "ignored".into();
                 };
-                let ctl = inner.pipes[k].clone();
+                let ctl = inner.pipes[k].0.clone();
                 let mut res = "ok".to_string();
                 match *op {
                     "hs" => ctl.remote_write(&frame(&[0xaa, k as u8])),
